@@ -212,6 +212,13 @@ def scenarios(tier):
                            'acts': [{'kind': kind, 'target': target, 'actor': actor}]}
         yield {'leg': 'many_systems', 'prios': big, 't': 1, 'acts': [{'kind': 'cleanup', 'actor': actor}]}
         yield {'leg': 'many_systems', 'prios': big, 't': 0, 'acts': [{'kind': 'add', 'prio': 2, 'actor': actor}]}
+        # a newcomer whose priority lies strictly between two registered levels / below the lowest / above the highest
+        for pr in (0.5, 1.5, 2.5, -0.5, 3.5):
+            yield {'leg': 'many_systems', 'prios': big, 't': 0, 'steps': 3, 'acts': [{'kind': 'add', 'prio': pr, 'actor': actor}]}
+        # ... and with a single system at the very bottom / at the very top
+        for pr in (-0.5, -1.5, 3.5, 4.5):
+            yield {'leg': 'many_systems', 'prios': [4] + big[:-1] + [-1], 't': 0, 'steps': 3,
+                   'acts': [{'kind': 'add', 'prio': pr, 'actor': actor}]}
     # forty systems in bands plus one registered LAST whose priority lies mid-order: it retires (removes itself) and
     # registers a successor of the same priority in the same timestep
     for band in (3, 2, 1):
@@ -659,6 +666,92 @@ def resort_cases():
                     yield {'leg': 'resort', 'prios': prios, 'actor': actor, 't': t, 'how': 'sort', 'bump': bump}
 
 
+def removal_count_case(case):
+    """The k-th and (k+1)-th removal in the life of a scheduler happen in ONE turn, before the removed systems' turns (k up
+    to 65): neither of them runs in that timestep."""
+    reset_library()
+    model = new_model(seed=1)
+    ran = []
+
+    class Rec(Core.System):
+        def execute(self):
+            ran.append((self.model.systems.timestep, self.id))
+    before = case['before']
+    for i in range(before):                       # removals that happened earlier (between timesteps)
+        model.systems.add_system(Rec(f'old{i}', model, priority=1))
+    for i in range(before):
+        model.systems.remove_system(f'old{i}')
+
+    class Reaper(Rec):
+        def execute(self):
+            super().execute()
+            if self.model.systems.timestep == 1:
+                self.model.systems.remove_system('v1')
+                self.model.systems.remove_system('v2')
+    model.systems.add_system(Reaper('reaper', model, priority=9))
+    for sid, p in (('v1', 3), ('keep', 2), ('v2', 1), ('tail', 0)):
+        model.systems.add_system(Rec(sid, model, priority=p))
+    model.execute(3)
+    want = [(0, 'reaper'), (0, 'v1'), (0, 'keep'), (0, 'v2'), (0, 'tail'), (1, 'reaper'), (1, 'keep'), (1, 'tail'),
+            (2, 'reaper'), (2, 'keep'), (2, 'tail')]
+    if ran != want:
+        raise Violation(f'{before} removals earlier in the scheduler\'s life, then two more in one turn of timestep 1: what ran',
+                        expected=want, observed=ran)
+    return len(ran)
+
+
+def copied_in_turn_case(case):
+    """A model is copied (deepcopy / pickle) from INSIDE a system's turn - a checkpoint taken by a system.  In the copy a
+    system is removed, the copy is stepped, the system is registered again: it runs again."""
+    import copy
+    import pickle
+    reset_library()
+    model = new_model(seed=1)
+    snaps = []
+
+    class Checkpoint(_PRec):
+        def execute(self):
+            _PRec.execute(self)
+            if self.model.systems.timestep == 1 and not snaps:
+                snaps.append(copy.deepcopy(self.model) if case['how'] == 'deepcopy' else pickle.loads(pickle.dumps(self.model)))
+    _CopyHelper.install(Checkpoint)
+    model.systems.add_system(Checkpoint('cp', model, priority=5))
+    model.systems.add_system(_PRec('x', model, priority=1))
+    model.systems.add_system(_PRec('y', model, priority=0))
+    model.execute(2)
+    c = snaps[0]
+    del _PRec.LOG[:]
+    x = c.systems['x']
+    c.systems.remove_system('x')
+    c.execute()
+    c.systems.add_system(x)
+    c.execute(2)
+    got = list(_PRec.LOG)
+    t0 = c.systems.timestep - 3
+    want = [(t0, 'cp'), (t0, 'y'), (t0 + 1, 'cp'), (t0 + 1, 'x'), (t0 + 1, 'y'), (t0 + 2, 'cp'), (t0 + 2, 'x'), (t0 + 2, 'y')]
+    if got != want:
+        raise Violation(f'a model copied ({case["how"]}) from inside a system\'s turn; in the copy x was removed, one step, x '
+                        f'registered again, two steps', expected=want, observed=got)
+    return len(got)
+
+
+class _PRec(Core.System):
+    """Module-level recorder (picklable); the log is class state."""
+    LOG = []
+
+    def execute(self):
+        _PRec.LOG.append((self.model.systems.timestep, self.id))
+
+
+class _CopyHelper:
+    @staticmethod
+    def install(cls):
+        # make the locally defined subclass picklable by name
+        globals()[cls.__name__] = cls
+        cls.__qualname__ = cls.__name__
+        cls.__module__ = __name__
+
+
 def nested_cases():
     for order in ('remover_first', 'stepper_first'):
         for t in (0, 1):
@@ -674,6 +767,14 @@ def run(ctx):
         ctx.traces += 1
         try:
             ctx.transitions += hbfs._guard(nested_case, case)
+        except Violation as v:
+            ctx.report(case, v)
+            return
+    for case in [{'leg': 'removal_count', 'before': b} for b in (0, 1, 15, 30, 31, 32, 63, 64)] + \
+            [{'leg': 'copied_in_turn', 'how': h} for h in ('deepcopy', 'pickle')]:
+        ctx.traces += 1
+        try:
+            ctx.transitions += hbfs._guard(removal_count_case if case['leg'] == 'removal_count' else copied_in_turn_case, case)
         except Violation as v:
             ctx.report(case, v)
             return
@@ -703,5 +804,11 @@ def replay(case):
         return
     if case['leg'] == 'resort':
         hbfs._guard(resort_case, case)
+        return
+    if case['leg'] == 'removal_count':
+        hbfs._guard(removal_count_case, case)
+        return
+    if case['leg'] == 'copied_in_turn':
+        hbfs._guard(copied_in_turn_case, case)
         return
     hbfs._guard(run_scenario, case)
